@@ -3,7 +3,8 @@
    "A bare #[parent] field is produced from the whole counterpart when converting from it and is poured into the counterpart through
     its own into_existing conversion when converting into it"; a parameterised #[parent(...)] lists the child fields (and, nested, the
     typed sub-parents) that live flat in the counterpart.
-     in == [kind |-> "bare" | "param" | "nested",
+     in == [kind |-> "bare" | "param" | "nested" | "nested3",      (nested3: the last base field lives two levels down, in base.inner.deep; the
+                                                                  nested group is written first and `inner` has no direct member)
             bit  |-> Seq(Item)      items of the parent type's own fields b1.. (none | ren | expr | kexpr)   ("nested": the last one lives in base.inner)
                                     kexpr (parameterised parents): [owned_into(t<200+j>(~))] [ref_into(t<300+j>(~))] -- an ownership-specific pair and no
                                     into_existing instruction, so into_existing must fall back on the `into` instruction of ITS ownership (C05 inside #[parent])
@@ -16,8 +17,10 @@ N2S(i) == ToString(i)
 Tag(n, x) == "t" \o N2S(n) \o "(" \o x \o ")"
 NB(in) == Len(in.bit)
 \* where base field j lives on the deriving side / in the counterpart
-BPath(in, j) == IF in.kind = "nested" /\ j = NB(in) THEN "base.inner.c" \o N2S(j) ELSE "base.b" \o N2S(j)
-BLeaf(in, j) == IF in.bit[j] = "ren" THEN "q" \o N2S(j) ELSE IF in.kind = "nested" /\ j = NB(in) THEN "c" \o N2S(j) ELSE "b" \o N2S(j)
+IsNested(in) == in.kind \in {"nested", "nested3"}
+BPath(in, j) == IF in.kind = "nested" /\ j = NB(in) THEN "base.inner.c" \o N2S(j)
+                ELSE IF in.kind = "nested3" /\ j = NB(in) THEN "base.inner.deep.c" \o N2S(j) ELSE "base.b" \o N2S(j)
+BLeaf(in, j) == IF in.bit[j] = "ren" THEN "q" \o N2S(j) ELSE IF IsNested(in) /\ j = NB(in) THEN "c" \o N2S(j) ELSE "b" \o N2S(j)
 OwnLeaf(j) == "s" \o N2S(j)
 IsExpr(it) == it = "expr"
 \* tags: own member j -> t<j>, base field j -> t<100+j>
@@ -35,7 +38,7 @@ Expected(in, k) == IF IsFrom(k) THEN FromExp(in) ELSE IF IsIE(k) THEN IEExp(in, 
 Sites(in) == {j \in DOMAIN in.own : IsExpr(in.own[j])} \cup {100 + j : j \in {x \in DOMAIN in.bit : IsExpr(in.bit[x])}}
 VarsPrefix(in) == [j \in 1..in.vars |-> "v" \o N2S(j)]
 WellFormed(in) == /\ NB(in) >= 1 /\ in.ppos \in 1..(Len(in.own) + 1)
-                  /\ (in.kind = "nested" => NB(in) >= 2)
+                  /\ (IsNested(in) => NB(in) >= 2)
                   \* inside #[parent(...)] only infallible instructions exist: the fallible twin cannot put a `?` site there
                   /\ (in.kind # "bare" => \A j \in DOMAIN in.bit : in.bit[j] # "expr")
                   /\ (in.kind = "bare" => \A j \in DOMAIN in.bit : in.bit[j] # "kexpr")
